@@ -249,6 +249,34 @@ pub fn record_one(run: usize, p: &Problem, seed: u64) -> (Vec<Value>, usize, usi
             }
         }
     }
+    if run % 4 == 1 {
+        // Lifecycle.tla `Frozen`: once a solver is built, a set_infinity issued by another thread does not change what it
+        // computes.  The problem gets a vacuous nonnegative row with an "infinite" right-hand side, so that the bound matters
+        // (the row is dropped at build time and reinstated in the solution with s = bound at build).
+        let mut pf = p.clone();
+        let (m, n) = (pf.m(), pf.n());
+        let mut rows: Vec<Vec<f64>> = vec![vec![0.0; n]; m + 1];
+        for j in 0..n { for k in pf.A.colptr[j]..pf.A.colptr[j + 1] { rows[pf.A.rowval[k]][j] = pf.A.nzval[k]; } }
+        pf.A = Csc::from_dense(&rows, m + 1, n);
+        pf.b.push(1e30);
+        pf.cones.push(ConeSpec::Nonneg(1));
+        let r = catch_unwind(AssertUnwindSafe(|| {
+            let (P, A) = (pf.P.to_clarabel(), pf.A.to_clarabel());
+            let run1 = |disturb: bool| {
+                let mut s = DefaultSolver::new(&P, &pf.q, &A, &pf.b, &pf.clarabel_cones(), pf.settings());
+                if disturb { std::thread::spawn(|| clarabel::set_infinity(1e25)).join().unwrap(); }
+                s.solve();
+                if disturb { clarabel::default_infinity(); }
+                Sol { status: s.solution.status, x: s.solution.x.clone(), s: s.solution.s.clone(), z: s.solution.z.clone(), obj: s.solution.obj_val, obj_d: s.solution.obj_val_dual, iters: s.solution.iterations }
+            };
+            (run1(false), run1(true))
+        }));
+        clarabel::default_infinity();
+        match r {
+            Ok((a, b)) => lines.push(pair_event(run, "frozen_after_build", &pf, &a, &b.x, &b.s, &b.z, b.status, (b.obj, b.obj_d), true, bits_eq(&a, &b))),
+            Err(e) => lines.push(json!({"ev": "Panic", "run": run, "kind": "frozen_after_build", "msg": crate::rec_ipm::panic_msg(e)})),
+        }
+    }
     (lines, compared, skipped)
 }
 
